@@ -10,7 +10,6 @@ use libtw2_net::protocol7 as p7;
 use libtw2_net::verif::ConnView;
 use libtw2_net::Timestamp;
 use libtw2_warn::Warn;
-use std::convert::Infallible;
 
 /// The callback the harness owns: clock, randomness, wire.
 pub struct Cb {
@@ -19,7 +18,19 @@ pub struct Cb {
     /// Values handed out by `secure_random`, cycled.
     pub random: Vec<[u8; 4]>,
     pub random_calls: usize,
+    /// the environment refuses this many datagrams (a transient socket error): the call
+    /// that tried to send gets the error, the datagram is lost
+    pub fail_sends: u8,
+    /// datagrams the environment refused, and everything handed to `send` in order
+    /// (datagram, delivered?)
+    pub all: Vec<(Vec<u8>, bool)>,
+    /// errors the library reported back to the caller
+    pub errors: u32,
 }
+
+/// The environment's send error.
+#[derive(Debug)]
+pub struct SendErr;
 
 impl Cb {
     pub fn new(now: u64, random: [u8; 4]) -> Cb {
@@ -28,6 +39,9 @@ impl Cb {
             out: Vec::new(),
             random: vec![random],
             random_calls: 0,
+            fail_sends: 0,
+            all: Vec::new(),
+            errors: 0,
         }
     }
     /// Randomness that differs from draw to draw: the k-th draw of an endpoint
@@ -40,7 +54,20 @@ impl Cb {
             out: Vec::new(),
             random,
             random_calls: 0,
+            fail_sends: 0,
+            all: Vec::new(),
+            errors: 0,
         }
+    }
+    fn snd(&mut self, buffer: &[u8]) -> Result<(), SendErr> {
+        if self.fail_sends > 0 {
+            self.fail_sends -= 1;
+            self.all.push((buffer.to_vec(), false));
+            return Err(SendErr);
+        }
+        self.all.push((buffer.to_vec(), true));
+        self.out.push(buffer.to_vec());
+        Ok(())
     }
     fn rnd(&mut self, buffer: &mut [u8]) {
         let v = self.random[self.random_calls % self.random.len()];
@@ -52,13 +79,12 @@ impl Cb {
 }
 
 impl c6::Callback for Cb {
-    type Error = Infallible;
+    type Error = SendErr;
     fn secure_random(&mut self, buffer: &mut [u8]) {
         self.rnd(buffer)
     }
-    fn send(&mut self, buffer: &[u8]) -> Result<(), Infallible> {
-        self.out.push(buffer.to_vec());
-        Ok(())
+    fn send(&mut self, buffer: &[u8]) -> Result<(), SendErr> {
+        self.snd(buffer)
     }
     fn time(&mut self) -> Timestamp {
         Timestamp::from_usecs_since_epoch(self.now)
@@ -66,13 +92,12 @@ impl c6::Callback for Cb {
 }
 
 impl c7::Callback for Cb {
-    type Error = Infallible;
+    type Error = SendErr;
     fn secure_random(&mut self, buffer: &mut [u8]) {
         self.rnd(buffer)
     }
-    fn send(&mut self, buffer: &[u8]) -> Result<(), Infallible> {
-        self.out.push(buffer.to_vec());
-        Ok(())
+    fn send(&mut self, buffer: &[u8]) -> Result<(), SendErr> {
+        self.snd(buffer)
     }
     fn time(&mut self) -> Timestamp {
         Timestamp::from_usecs_since_epoch(self.now)
@@ -168,39 +193,47 @@ macro_rules! common_impl {
         fn connect(&mut self, cb: &mut Cb) {
             match $c::Connection::connect(self, cb) {
                 Ok(()) => {}
-                Err(e) => match e {},
+                Err(SendErr) => cb.errors += 1,
             }
         }
         fn send(&mut self, cb: &mut Cb, data: &[u8], vital: bool) -> bool {
             match $c::Connection::send(self, cb, data, vital) {
                 Ok(()) => true,
                 Err($c::Error::TooLongData) => false,
-                Err($c::Error::Callback(e)) => match e {},
+                // the chunk is queued / the call took effect; the environment's error is reported
+                Err($c::Error::Callback(SendErr)) => {
+                    cb.errors += 1;
+                    true
+                }
             }
         }
         fn send_connless(&mut self, cb: &mut Cb, data: &[u8]) -> bool {
             match $c::Connection::send_connless(self, cb, data) {
                 Ok(()) => true,
                 Err($c::Error::TooLongData) => false,
-                Err($c::Error::Callback(e)) => match e {},
+                // the chunk is queued / the call took effect; the environment's error is reported
+                Err($c::Error::Callback(SendErr)) => {
+                    cb.errors += 1;
+                    true
+                }
             }
         }
         fn flush(&mut self, cb: &mut Cb) {
             match $c::Connection::flush(self, cb) {
                 Ok(()) => {}
-                Err(e) => match e {},
+                Err(SendErr) => cb.errors += 1,
             }
         }
         fn tick(&mut self, cb: &mut Cb) {
             match $c::Connection::tick(self, cb) {
                 Ok(()) => {}
-                Err(e) => match e {},
+                Err(SendErr) => cb.errors += 1,
             }
         }
         fn disconnect(&mut self, cb: &mut Cb, reason: &[u8]) {
             match $c::Connection::disconnect(self, cb, reason) {
                 Ok(()) => {}
-                Err(e) => match e {},
+                Err(SendErr) => cb.errors += 1,
             }
         }
         fn feed(&mut self, cb: &mut Cb, data: &[u8], ev: &mut Vec<Ev>, warn: &mut Vec<String>) {
@@ -209,7 +242,7 @@ macro_rules! common_impl {
                 $c::Connection::feed(self, cb, &mut WarnStr(warn), data, &mut buf[..]);
             match res {
                 Ok(()) => {}
-                Err(e) => match e {},
+                Err(SendErr) => cb.errors += 1,
             }
             // The application drains every event iterator (assumption of C01).
             for e in packet {
